@@ -1391,6 +1391,14 @@ _vbi_cache_foreach_page		(vbi_cache *		ca,
 		       || subno < ps->subno_min
 		       || subno > ps->subno_max) {
 			if (dir < 0) {
+				if (ps->n_subpages > 0
+				    && subno > ps->subno_max) {
+					/* Above the last subpage of
+					   this page, do not skip it. */
+					subno = ps->subno_max;
+					break;
+				}
+
 				--pgno;
 				--ps;
 
@@ -1405,6 +1413,14 @@ _vbi_cache_foreach_page		(vbi_cache *		ca,
 
 				subno = ps->subno_max;
 			} else {
+				if (ps->n_subpages > 0
+				    && subno < ps->subno_min) {
+					/* Below the first subpage of
+					   this page, do not skip it. */
+					subno = ps->subno_min;
+					break;
+				}
+
 				++pgno;
 				++ps;
 
